@@ -558,7 +558,7 @@ func (p *Polygon) Parent(k int) (index int, ok bool) {
 	// we don't know how many may be next to us before we get back to our parent loop.)
 	// Move up one position from us, and then begin traversing back through the set of loops
 	// until we find the one that is our parent or we get to the top of the polygon.
-	for k--; k >= 0 && p.loops[k].depth <= depth; k-- {
+	for k--; k >= 0 && p.loops[k].depth >= depth; k-- {
 	}
 	return k, true
 }
